@@ -21,3 +21,5 @@ def run(prog, rep):
     _rsn.run_namebuf(prog, rep)
     r_del.run_break_cycles(prog, rep)
     r_del.run_section_selflink(prog, rep)
+    from ..rules import r_del as _rdbh
+    _rdbh.run_backend_by_handle(prog, rep)
